@@ -244,6 +244,9 @@ func sigma(maxLen int) {
 	var i int64
 	var rec func()
 	rec = func() {
+		if vrt.Stop() {
+			return
+		}
 		checkLine(string(buf), "")
 		if len(buf) == maxLen {
 			return
